@@ -478,6 +478,42 @@ def _push_ctor(t):
     return t
 
 
+def _untry_option(t):
+    """value of an Option-returning helper whose term uses `x?`: each `x?` (innermost first, in order of occurrence) becomes the condition
+    `let Some(_) = x` with the payload in its place; the value is `conditions.then(|| v)` for `Some(v)`, else `if conditions { t } else { None }`.
+    A `?` inside a closure of the helper whose operand mentions that closure's own parameter belongs to the closure and stays."""
+    conds = []
+    for _round in range(12):
+        own = []        # (try node) candidates, pre-order
+
+        def visit(x, bound):
+            if x[0] == "closure":
+                visit(x[3], bound | {x[1]})
+                return
+            if x[0] == "try":
+                inner_try = any(y[0] == "try" for y in subterms(x[1]))
+                local = any(y[0] == "cparam" and y[1] in bound for y in subterms(x[1]))
+                if not inner_try and not local and x not in own:
+                    own.append(x)
+            for c in _direct_children(x):
+                visit(c, bound)
+        visit(t, frozenset())
+        if not own:
+            break
+        x = own[0]
+        conds.append(_let("v1::Some($)", x[1]))
+        payload = _proj_some(x[1])
+        t = rewrite(t, lambda n, x=x, payload=payload: payload if n == x else None)
+    if not conds:
+        return t
+    c = conds[-1]
+    for k in reversed(conds[:-1]):
+        c = ("op", "&&", [k, c])
+    if t[0] == "call" and t[1] == "Some" and len(t[2]) == 1:
+        return ("call", "then", [c, t[2][0]])
+    return _mk_if(c, t, _NONE)
+
+
 def _has_ret(t):
     """a `return` that belongs to the function the term is the body of (not to a closure inside it)"""
     return any(x[0] == "ret" for x in subterms(t, closures=False))
@@ -1922,6 +1958,8 @@ class Norm:
         r = _unreturn(rewrite(t, subst))
         if _has_ret(r):
             return None          # a `return` of the helper that is not in tail position would read as a return of the caller
+        if peel_ty(fn.get("output", "")).startswith(("std::option::Option<", "core::option::Option<")):
+            r = _untry_option(r)  # `x?` of the helper means "the helper's result is None", not a return of the caller
         if "/#" in _show(r):
             # the helper's own generic parameters (`T/#0`) stand for the arguments of THIS call
             g = str(node.get("gen") or "")
